@@ -339,10 +339,29 @@ func genPair(data []byte) pair {
 			param = sigkit.SchnorrSig([]*sigkit.Key{k}, data)
 		}
 		return pair{sigkit.Hash(pre, code), &pg.Program{Code: code, Parameter: param}, fmt.Sprintf("%s@%02x", kind, pre)}
-	case 13: // valid program under somebody else's address
-		code := sigkit.StdCode(k)
+	case 13: // valid program under somebody else's address, every prefix
 		other := keys[(indexOf(k)+1)%len(keys)]
-		return pair{sigkit.Hash(pStd, sigkit.StdCode(other)), &pg.Program{Code: code, Parameter: sigkit.SigScript(k, data)}, "std+hashmismatch"}
+		switch rng.Intn(4) {
+		case 0:
+			code := sigkit.StdCode(k)
+			pre := []byte{pStd, pDep}[rng.Intn(2)]
+			return pair{sigkit.Hash(pre, sigkit.StdCode(other)), &pg.Program{Code: code, Parameter: sigkit.SigScript(k, data)}, fmt.Sprintf("std+hashmismatch@%02x", pre)}
+		case 1:
+			code := sigkit.RawMulti(1, encs([]*sigkit.Key{k, other}), 2, 0xae)
+			foreign := sigkit.RawMulti(1, encs([]*sigkit.Key{other, keys[(indexOf(k)+2)%len(keys)]}), 2, 0xae)
+			pre := []byte{pMulti, pStd, pDep}[rng.Intn(3)]
+			return pair{sigkit.Hash(pre, foreign), &pg.Program{Code: code, Parameter: sigkit.SigScript(k, data)}, fmt.Sprintf("multi+hashmismatch@%02x", pre)}
+		case 2:
+			code := sigkit.SchnorrCode(k)
+			pre := []byte{pStd, pDep}[rng.Intn(2)]
+			return pair{sigkit.Hash(pre, sigkit.SchnorrCode(other)), &pg.Program{Code: code, Parameter: sigkit.SchnorrSig([]*sigkit.Key{k}, data)}, fmt.Sprintf("schnorr+hashmismatch@%02x", pre)}
+		default: // right code hash, one byte of the address body flipped
+			code := sigkit.StdCode(k)
+			pre := []byte{pStd, pDep}[rng.Intn(2)]
+			h := sigkit.Hash(pre, code)
+			h[1+rng.Intn(20)] ^= byte(1 << uint(rng.Intn(8)))
+			return pair{h, &pg.Program{Code: code, Parameter: sigkit.SigScript(k, data)}, fmt.Sprintf("std+hashflip@%02x", pre)}
+		}
 	case 14: // unknown prefix with a valid standard program
 		code := sigkit.StdCode(k)
 		pre := []byte{pDID, 0x3f, 0x00, 0xff}[rng.Intn(4)]
@@ -855,6 +874,13 @@ func main() {
 		runCase(data0, []pair{{sigkit.Hash(pMulti, mc), &pg.Program{Code: mc, Parameter: append(append([]byte{}, one...), sigkit.SigScript(k2, data0)...)}, "corpus"}}, "corpus:multi-2of3-valid")
 		dup := sigkit.RawMulti(2, [][]byte{k0.Enc, k0.Enc, k1.Enc}, 3, 0xae)
 		runCase(data0, []pair{{sigkit.Hash(pMulti, dup), &pg.Program{Code: dup, Parameter: append(append([]byte{}, one...), sigkit.SigScript(k0, data0)...)}, "corpus"}}, "corpus:multi-dupkey-one-signer")
+		for _, pre := range []byte{pStd, pDep} { // a valid program under somebody else's address
+			runCase(data0, []pair{{sigkit.Hash(pre, sigkit.StdCode(k1)), &pg.Program{Code: c, Parameter: sigkit.SigScript(k0, data0)}, "corpus"}}, fmt.Sprintf("corpus:std-hashmismatch@%02x", pre))
+		}
+		for _, pre := range []byte{pMulti, pStd, pDep} {
+			mine := sigkit.RawMulti(1, encs([]*sigkit.Key{k0, k1}), 2, 0xae)
+			runCase(data0, []pair{{sigkit.Hash(pre, mc), &pg.Program{Code: mine, Parameter: sigkit.SigScript(k0, data0)}, "corpus"}}, fmt.Sprintf("corpus:multi-hashmismatch@%02x", pre))
+		}
 		runCase(data0, nil, "corpus:empty")
 		runCase(data0, []pair{{sigkit.Hash(pStd, c), &pg.Program{Code: c, Parameter: sigkit.SigScript(k0, data0)}, "corpus"}, {sigkit.Hash(pStd, c), &pg.Program{Code: c, Parameter: sigkit.SigScript(k0, data0)}, "corpus"}}[:1], "corpus:one")
 	}
